@@ -117,6 +117,29 @@ fn alphabet() -> Vec<Dev> {
             }
         }
     }
+    // TWO transparent variants whose inner types differ (their arms look alike token for token, but bind different types)
+    d.push(dev("two transparent variants: Ts(&'static str) first, Tn(nested enum) last", &["transparent"], |s| {
+        let mut a = VariantSpec::unit("Ts");
+        a.transparent = true;
+        a.kind = Kind::Tuple(vec![inner_ty(Inner::SStr)]);
+        let mut b = VariantSpec::unit("Tn");
+        b.transparent = true;
+        b.kind = Kind::Tuple(vec![inner_ty(Inner::Nested)]);
+        s.variants.insert(0, a);
+        s.variants.push(b);
+        true
+    }));
+    d.push(dev("two transparent variants: To { f: user type } first, Tn { f: nested enum } last (same field name)", &["transparent"], |s| {
+        let mut a = VariantSpec::unit("To");
+        a.transparent = true;
+        a.kind = Kind::Named(vec![NamedField { name: "f".into(), ty: inner_ty(Inner::Odd), default_with: false }]);
+        let mut b = VariantSpec::unit("Tn");
+        b.transparent = true;
+        b.kind = Kind::Named(vec![NamedField { name: "f".into(), ty: inner_ty(Inner::Nested), default_with: false }]);
+        s.variants.insert(0, a);
+        s.variants.push(b);
+        true
+    }));
     // a default variant with a `serialize` literal but no to_string still prints what it captured
     for (pn, first) in [("first", true), ("last", false)] {
         d.push(dev(format!("default variant {} (tuple, String, serialize=[\"dser\"])", pn), &["default"], move |s| {
@@ -226,15 +249,26 @@ fn transparent_inner(spec: &EnumSpec) -> Option<FieldTy> {
 pub fn render(spec: &EnumSpec) -> String {
     let tin = transparent_inner(spec);
     let mut derives = vec!["Debug", "PartialEq", "strum::EnumString", "strum::Display"];
-    let (has_asref, has_static) = match &tin {
-        None => (true, true),
-        Some(FieldTy::Str) => (true, false),
-        Some(FieldTy::SStr) => (true, true),
-        Some(FieldTy::Raw(n, _)) if n == "S" => (true, false),
-        Some(FieldTy::Raw(n, _)) if n == "Nested" => (true, true),
-        Some(FieldTy::Raw(n, _)) if n == "Odd" => (true, true),
-        _ => (false, false),
+    let caps = |t: &FieldTy| -> (bool, bool) {
+        match t {
+            FieldTy::Str => (true, false),
+            FieldTy::SStr => (true, true),
+            FieldTy::Raw(n, _) if n == "S" => (true, false),
+            FieldTy::Raw(n, _) if n == "Nested" => (true, true),
+            FieldTy::Raw(n, _) if n == "Odd" => (true, true),
+            _ => (false, false),
+        }
     };
+    let own_inner = |v: &VariantSpec| -> FieldTy {
+        match &v.kind {
+            Kind::Tuple(f) => f[0].clone(),
+            Kind::Named(f) => f[0].ty.clone(),
+            Kind::Unit => FieldTy::U8,
+        }
+    };
+    // with several transparent variants every one of them has to support the derive
+    let (has_asref, has_static) = spec.variants.iter().filter(|v| v.transparent).map(|v| caps(&own_inner(v))).fold((true, true), |a, b| (a.0 && b.0, a.1 && b.1));
+    let _ = &tin;
     // a Box<str> default variant has no bearing on AsRefStr / IntoStaticStr (they print the name)
     if has_asref {
         derives.push("strum::AsRefStr");
@@ -247,7 +281,7 @@ pub fn render(spec: &EnumSpec) -> String {
     body.push_str("    let mut tobs: Vec<(usize, String, String, Result<Vec<(String, String)>, String>, Vec<(String, String)>)> = Vec::new();\n");
     for (vi, v) in spec.variants.iter().enumerate() {
         if v.transparent {
-            let t = tin.clone().unwrap();
+            let t = own_inner(v);
             for val in inner_values(&t) {
                 let ctor = render_ctor(spec, vi, &[val.to_string()]);
                 body.push_str(&format!("    tobs.push(({vi}, {vs:?}.to_string(), \"transparent-display\".to_string(), vf_core::guard(|| {{ let v: EC = {ctor}; let mut g = vf_core::fmtgrid::fmt_grid(&v, w, p); g.push((\"to_string\".into(), v.to_string())); g }}), {{ let i = {val}; let mut g = vf_core::fmtgrid::fmt_grid(&i, w, p); g.push((\"to_string\".into(), i.to_string())); g }}));\n", vi = vi, vs = val, ctor = ctor, val = val));
